@@ -1,12 +1,12 @@
 """C04 - integer-typed storage never holds a value outside its declared range.
 
 Theorems: coq/C04/Properties_C04.v. Spec = the shared reference interpreter coq/Lang (every store
-goes through Lang.Sem.coerce) started with range-checked global initialisers (run_c04);
+goes through Lang.Sem.coerce, global initialisers included);
 Mech = today's store paths of /repo (coq/C04/Model.v) over the min/max table, rejection test and
 unsigned clamp re-extracted from the C++ into coq/C04/Gen_RangeTable.v by translators/ranges.py on
 every run.
 Tie: (1) the exhaustive matrix types x store paths x boundary values, one store per program, run on
-/repo's main, on the extracted Ref (bin/c04_model prog) and asked of the extracted Mech
+/repo's main, on the extracted Ref (bin/lang_model) and asked of the extracted Mech
 (bin/c04_model mech); on cells where Mech = Spec main must agree with Ref, on the other cells (the
 recorded defects) main must agree with Mech (KNOWN-FINDING) or with Ref (fixed); (2) random programs
 mixing the store paths; (3) hand-written replays of the findings outside CbCore.
@@ -33,8 +33,8 @@ META = {
                  "the C++ store paths over the range table re-extracted from the C++ on every run + extracted-model differential matrix against main",
     "text": "Machine-checked for every program, fuel and reachable state of the reference semantics (coq/Lang): if every typed cell (globals, "
             "all scopes of all frames, statics) holds a value of its declared type, so does every cell after any expression or statement, "
-            "whatever its outcome (store_inv_step); every run therefore ends well-formed (store_inv_run, store_inv_run_checked with "
-            "range-checked global initialisers), every value read, returned or bound to a parameter is in range; an in-range store - both "
+            "whatever its outcome (store_inv_step); every run therefore starts and ends well-formed or is refused because of an "
+            "out-of-range global initialiser (store_inv_run), every value read, returned or bound to a parameter is in range; an in-range store - both "
             "limits of every type included - reads back exactly and touches no other cell (store_exact, store_touches_only_target); a negative "
             "stored to an unsigned target becomes 0; any other out-of-range value is a range error on every store path and leaves the state "
             "unchanged. The min/max table, the rejection test and the unsigned clamp are re-extracted from TypeManager::check_type_range / "
@@ -45,7 +45,7 @@ META = {
             "interpreter and the extracted Mech are compared on the exhaustive matrix 9 types x 34 store paths x 12 boundary values (one store "
             "per program) and on random programs mixing the paths, on every run.",
     "note": "Trusted: Coq kernel, no axioms (all Print Assumptions closed); extraction (ExtrOcamlBasic, ExtrOcamlString) + OCaml driver "
-            "(S-expression reader shared with ocaml/lang_driver.ml); translators/ranges.py (regular expressions over two C++ functions; an "
+            "translators/ranges.py (regular expressions over two C++ functions; an "
             "unrecognised shape is reported as `translator: stale` and the check falls back to the correspondence run); the Mech model is a "
             "hand-written reading of the named call sites, tied to main by differential testing only. Outside CbCore (structs, pointers, "
             "references) the property is only probed by hand-written replays (all of them recorded findings). `unsigned char` is rejected by "
@@ -101,21 +101,8 @@ def name_failed(cq):
 
 # ------------------------------------------------------------------ running the models
 def model_run(sexprs, fuel=4000, timeout=1800):
-    """Ref with checked global initialisers: -> list of {src, expect, out} (protocol of ocaml/lang_driver.ml)."""
-    common.ensure_model(PROP)
-    data = ("\n".join(sexprs) + "\n").encode()
-    rc, o, e = common.sh([common.model_bin(PROP), "prog", str(fuel)], input=data, timeout=timeout)
-    if rc != 0:
-        raise RuntimeError("c04_model prog failed rc=%d: %s" % (rc, e[-800:]))
-    res = []
-    for blk in o.split("===BEGIN\n")[1:]:
-        src, rest = blk.split("===EXPECT ", 1)
-        exp, rest = rest.split("\n", 1)
-        out = rest.rsplit("\n===END", 1)[0]
-        res.append({"src": src, "expect": exp.strip(), "out": out})
-    if len(res) != len(sexprs):
-        raise RuntimeError("c04_model returned %d results for %d programs" % (len(res), len(sexprs)))
-    return res
+    """Ref (Lang.Print.run converts global initialisers like every other store) -> list of {src, expect, out}"""
+    return langrun.model_run(sexprs, fuel, timeout)
 
 
 def mech_run(queries):
@@ -370,7 +357,7 @@ def run(rep):
     rep.coverage.update({
         "evaluations": n_eval, "distinct_nontrivial": nontriv,
         "rule": "matrix: every (type, store path, boundary-value kind) cell as a one-store CbCore program printed by the extracted printer and run on "
-                "main, on the extracted Ref (run_c04) and asked of the extracted Mech; random: generated programs mixing store paths, run on main "
+                "main, on the extracted Ref and asked of the extracted Mech; random: generated programs mixing store paths, run on main "
                 "and Ref. distinct = distinct ASTs that are well-formed (Ref neither Undef nor out of fuel); non-trivial = prints something or "
                 "ends in a runtime error",
         "exhaustive": True,
